@@ -266,15 +266,36 @@ def run(chk, repo):
                 found["la"], found["lb"] = [unparse(e) for e in s.value.elts]
             elif unparse(t) in ("la", "lb", "lm"):
                 found[unparse(t)] = unparse(s.value)
-    chk.decide(found.get("la") == "len(self.denominator)" and found.get("lb") == "len(self.numerator)",
-               "C04.lengths", W("LinearFilter.__call__"), "la, lb = %s, %s" % (found.get("la"), found.get("lb")),
-               why="state sizes must come from the denominator / numerator lengths", node=call)
-    try:
-        ok = Evaluator().ev(ast.parse(found.get("lm", "0"), mode="eval").body) == RF.sym("la") - 1
-    except Inconclusive:
-        ok = False
-    chk.decide(ok, "C04.lengths", W("LinearFilter.__call__"), "lm = %s" % found.get("lm"),
-               why="memory size must be the denominator order la - 1", node=call)
+    # what the sizes are, not how they are spelled: the builder folded for schemas of several shapes
+    sem = []
+    for n_, d_ in (({0: "generic"}, {0: "one"}), ({0: "one", 3: "generic"}, {0: "generic", 1: "generic"}),
+                   ({}, {0: "one", 4: "generic"}), ({2: "stream"}, {0: "minus_one", 1: "stream", 2: "generic"}),
+                   ({0: "generic", 1: "generic", 2: "generic"}, {0: "generic"})):
+        sch_ = K.Schema(n_, d_)
+        try:
+            fk_ = K.fold_kernel(call, sch_)
+        except Inconclusive:
+            sem = None
+            break
+        want_la, want_lb = max(sch_.den) + 1, (max(sch_.num) + 1 if sch_.num else 0)
+        sem.append((sch_.label(), fk_.get("la"), fk_.get("lb"), fk_.get("lm"), want_la, want_lb))
+    if sem and all(isinstance(x[3], int) and all(v is None or isinstance(v, int) for v in x[1:3]) for x in sem):
+        # (la / lb may have been written out where they are used: what is still a local has to be right)
+        bad_ = [x for x in sem if x[3] != x[4] - 1 or (x[1] is not None and x[1] != x[4]) or (x[2] is not None and x[2] != x[5])]
+        chk.decide(not bad_, "C04.lengths", W("LinearFilter.__call__"),
+                   "la, lb, lm for %d coefficient layouts: %s" % (len(sem), "; ".join("%s,%s,%s" % (x[1], x[2], x[3]) for x in sem)),
+                   why="state sizes must be the dense denominator / numerator lengths and lm = la - 1; for %s the builder "
+                       "computes la, lb, lm = %s" % (bad_[0][0], bad_[0][1:4]) if bad_ else "", node=call)
+    else:
+        chk.decide(found.get("la") == "len(self.denominator)" and found.get("lb") == "len(self.numerator)",
+                   "C04.lengths", W("LinearFilter.__call__"), "la, lb = %s, %s" % (found.get("la"), found.get("lb")),
+                   why="state sizes must come from the denominator / numerator lengths", node=call)
+        try:
+            ok = Evaluator().ev(ast.parse(found.get("lm", "0"), mode="eval").body) == RF.sym("la") - 1
+        except Inconclusive:
+            ok = False
+        chk.decide(ok, "C04.lengths", W("LinearFilter.__call__"), "lm = %s" % found.get("lm"),
+                   why="memory size must be the denominator order la - 1", node=call)
 
     # ----------------------------------------------------------------- memory
     chk.rule("C04.memory", "memory None -> lm copies of zero; a non-iterable memory is called with lm; otherwise the "
